@@ -32,7 +32,7 @@ use std::{
     net::IpAddr,
     pin::{Pin, pin},
     sync::{
-        Arc,
+        Arc, Mutex,
         atomic::{AtomicBool, Ordering},
     },
 };
@@ -1012,15 +1012,21 @@ impl Eq for RelayConnectionState {}
 /// Each [`ActiveRelayActor`] updates only the status (via [`Self::set_status`]),
 /// which guards against stale writes: if another relay has become home since this actor
 /// was designated, the write is silently dropped.
+///
+/// All three writers hold `write_lock` for the duration of their write, so the
+/// check-then-write of [`Self::set_status`] can not interleave with a URL change.
 #[derive(Debug, Clone)]
 pub(crate) struct HomeRelayWatch {
     inner: Watchable<Option<RelayStatus>>,
+    /// Serialises writers. Readers and watchers do not take it.
+    write_lock: Arc<Mutex<()>>,
 }
 
 impl Default for HomeRelayWatch {
     fn default() -> Self {
         Self {
             inner: Watchable::new(None),
+            write_lock: Default::default(),
         }
     }
 }
@@ -1028,11 +1034,13 @@ impl Default for HomeRelayWatch {
 impl HomeRelayWatch {
     /// Set the home relay URL and status. Used by [`RelayActor`] on relay changes.
     fn set(&self, url: RelayUrl, state: RelayConnectionState) {
+        let _guard = self.write_lock.lock().expect("poisoned");
         let _ = self.inner.set(Some(RelayStatus::new(url, state)));
     }
 
     /// Clear the home relay (no preferred relay). Used by [`RelayActor`].
     fn clear(&self) {
+        let _guard = self.write_lock.lock().expect("poisoned");
         let _ = self.inner.set(None);
     }
 
@@ -1042,7 +1050,12 @@ impl HomeRelayWatch {
     /// demoted actor from overwriting a newer home relay's status: the [`RelayActor`]
     /// updates the URL in the watchable *before* sending `SetHomeRelay(false)`, so by
     /// the time the old actor tries to write, the URL no longer matches.
+    ///
+    /// The comparison and the write happen under `write_lock`: without it the
+    /// [`RelayActor`] could change the URL between the two and the demoted actor
+    /// would re-publish its own URL.
     fn set_status(&self, url: &RelayUrl, state: RelayConnectionState) {
+        let _guard = self.write_lock.lock().expect("poisoned");
         if self.inner.get().as_ref().map(RelayStatus::url) == Some(url) {
             #[cfg(iroh_verif)]
             crate::verif_hooks::pause::point("home_relay:status-checked");
